@@ -62,6 +62,7 @@ fn run_forked(def: &'static CheckDef, job: &str, arg: &str) -> String {
     if pid == 0 {
         unsafe { libc::close(fds[0]); }
         crate::alloc_seam::RESULT_FD.store(fds[1], std::sync::atomic::Ordering::SeqCst);
+        crate::alloc_seam::set_check(def.id);
         let out = match build_scenario(def, job, arg) {
             Ok(sc) => { let seed = sc.seed; let mut o = (def.exec)(&sc); o.seed = seed; o }
             Err(e) => Outcome { verdict: "harness".into(), note: e, ..Default::default() },
@@ -415,7 +416,7 @@ pub fn run_check(check_id: &str, tier: Tier) -> i32 {
             "distinct_nontrivial": nontrivial_hashes.len(),
             "rule": def.rule,
             "samples": samples,
-            "exhaustive": def.exhaustive && next_idx >= max_runs,
+            "exhaustive": (def.exhaustive && next_idx >= max_runs) || { let need = (def.exhaustive_after)(tier); need > 0 && next_idx >= need },
             "runs_per_hour": if search_wall > 0.0 { (evaluations as f64 / search_wall * 3600.0) as u64 } else { 0 },
             "seeds": { "base": base_seed, "derivation": "splitmix64(VERIF_SEED ^ fnv(check id) ^ run index)", "run_indices": format!("0..{}", next_idx) },
             "simulated_seconds": (sim_ns_total / 1_000_000) as f64 / 1000.0,
